@@ -171,16 +171,19 @@ NUMS = ["0", "1", "2", "3", "0.5", "0.25", "1.25", "0.7", "2.5", "7.5", "0.1", "
 
 
 def gen_expr(rng, depth, vars_=()):
-    """a parameter expression whose value stays moderate (|v| < 1e9 with every variable at +-1000), so that the
-    binary64 trigonometry of model and implementation are comparable"""
+    """a parameter expression whose value stays moderate, so that the binary64 trigonometry of model and
+    implementation are comparable at the 1e-9 tolerance: an angle of magnitude 1e9 has an ulp of 1e-7, and the
+    model's own pow / exp / ln differ from libm in the last ulps.  Top-level actual parameters stay below 300 in
+    magnitude; expressions over formal parameters stay below 1000 with every formal at +-300"""
     import pyref
-    for _ in range(8):
+    bound = 1000.0 if vars_ else 300.0
+    for _ in range(12):
         e = gen_expr_raw(rng, depth, vars_)
         try:
-            vals = [pyref.peval(e, {v: x for v in vars_}) for x in (1000.0, -1000.0, 0.3)]
+            vals = [pyref.peval(e, {v: x for v in vars_}) for x in (300.0, -300.0, 0.3)]
         except Exception:
             continue
-        if all(v == v and abs(v) < 1e9 for v in vals):
+        if all(v == v and abs(v) < bound for v in vals):
             return e
     return ("num", "0.7")
 
